@@ -515,6 +515,9 @@ func normalizeTree(repo string, extraEnv []string, overlay map[string][]byte) (m
 			es = ns.planFlatten()
 		}
 		if len(es) == 0 {
+			es = ns.planSplitRecords()
+		}
+		if len(es) == 0 {
 			es = ns.planFolds()
 		}
 		if len(es) == 0 {
